@@ -62,6 +62,45 @@ func manyMetrics(n int) pmetric.Metrics {
 	return md
 }
 
+// spansOfKinds: n spans in one scope; kind(i) says what related data span i carries:
+// 0 nothing, 1 an attribute, 2 an event only, 3 a link only.
+func spansOfKinds(n int, kind func(i int) int) ptrace.Traces {
+	td := ptrace.NewTraces()
+	ss := td.ResourceSpans().AppendEmpty().ScopeSpans().AppendEmpty()
+	for i := 0; i < n; i++ {
+		sp := ss.Spans().AppendEmpty()
+		sp.SetName("s")
+		switch kind(i) {
+		case 1:
+			sp.Attributes().PutInt("i", int64(i%7))
+		case 2:
+			sp.Events().AppendEmpty().SetName("e")
+		case 3:
+			sp.Links().AppendEmpty().SetSpanID(pcommon.SpanID{9, 9, 9, 9, 0, 0, 0, 1})
+		}
+	}
+	return td
+}
+
+// pointsOfKinds: one gauge with n data points; kind(i): 0 bare, 1 an attribute, 2 an exemplar only.
+func pointsOfKinds(n int, kind func(i int) int) pmetric.Metrics {
+	md := pmetric.NewMetrics()
+	m := md.ResourceMetrics().AppendEmpty().ScopeMetrics().AppendEmpty().Metrics().AppendEmpty()
+	m.SetName("m")
+	dps := m.SetEmptyGauge().DataPoints()
+	for i := 0; i < n; i++ {
+		dp := dps.AppendEmpty()
+		dp.SetIntValue(int64(i))
+		switch kind(i) {
+		case 1:
+			dp.Attributes().PutInt("i", int64(i%7))
+		case 2:
+			dp.Exemplars().AppendEmpty().SetIntValue(1)
+		}
+	}
+	return md
+}
+
 func smallTraces() ptrace.Traces { return manySpans(3, true, 1) }
 
 func boundaryCases(tier string) []boundaryCase {
@@ -73,6 +112,29 @@ func boundaryCases(tier string) []boundaryCase {
 		{Name: "warm producer, 65537 resources (refused), then a valid batch", Batches: func() []any {
 			return []any{smallTraces(), manySpans(65537, false, 65537), smallTraces()}
 		}, Expect: []string{"ok", "error", "ok"}},
+		{Name: "65537 link-only spans", Batches: func() []any {
+			return []any{smallTraces(), spansOfKinds(65537, func(int) int { return 3 }), smallTraces()}
+		}, Expect: []string{"ok", "error", "ok"}},
+		{Name: "65537 event-only spans", Batches: func() []any {
+			return []any{spansOfKinds(65537, func(int) int { return 2 }), smallTraces()}
+		}, Expect: []string{"error", "ok"}},
+		{Name: "40000 attribute-bearing + 30000 link-only spans (each kind alone fits the id width)", Batches: func() []any {
+			return []any{spansOfKinds(70000, func(i int) int {
+				if i < 40000 {
+					return 1
+				}
+				return 3
+			}), smallTraces()}
+		}, Expect: []string{"error", "ok"}},
+		{Name: "30000 attribute + 20000 event-only + 20000 link-only spans interleaved", Batches: func() []any {
+			return []any{spansOfKinds(70000, func(i int) int { return []int{1, 2, 3, 1, 2, 3, 1}[i%7] }), smallTraces()}
+		}, Expect: []string{"error", "ok"}},
+		{Name: "70000 bare spans (no related data: no parent ids needed)", Batches: func() []any {
+			return []any{spansOfKinds(70000, func(int) int { return 0 }), smallTraces()}
+		}, Expect: []string{"any", "ok"}},
+		{Name: "one gauge with 70000 data points: attributes / exemplar-only / bare", Batches: func() []any {
+			return []any{pointsOfKinds(70000, func(i int) int { return i % 3 }), pointsOfKinds(70000, func(int) int { return 2 }), pointsOfKinds(70000, func(int) int { return 0 })}
+		}, Expect: []string{"any", "any", "any"}},
 		{Name: "uint8 dictionary limit, one batch with 300 span names x 10 (reset regime)", Options: []cfgpkg.Option{cfgpkg.WithUint8LimitDictIndex()}, Batches: func() []any {
 			td := ptrace.NewTraces()
 			ss := td.ResourceSpans().AppendEmpty().ScopeSpans().AppendEmpty()
